@@ -31,6 +31,8 @@ type pipelineConn struct {
 	ctx         context.Context
 	cancelCause context.CancelCauseFunc
 
+	wm chan struct{} // tcp write lock, has buffer of 1
+
 	m        sync.RWMutex
 	closed   bool
 	nextQid  int
@@ -45,6 +47,7 @@ func newPipelineConn(c net.Conn, t *PipelineTransport) *pipelineConn {
 		t:           t,
 		ctx:         ctx,
 		cancelCause: cancel,
+		wm:          make(chan struct{}, 1),
 		queue:       make(map[uint32]chan *dnsmsg.Msg),
 	}
 	pc.startLoops()
@@ -65,7 +68,7 @@ func (c *pipelineConn) exchange(ctx context.Context, m []byte) (*dnsmsg.Msg, err
 	}
 	defer c.deleteQueueC(qid)
 
-	err = c.write(m, qid)
+	err = c.write(ctx, m, qid)
 	if err != nil {
 		return nil, err
 	}
@@ -138,15 +141,15 @@ func (c *pipelineConn) readLoop() {
 	}
 }
 
-func (c *pipelineConn) write(m []byte, qid uint16) (err error) {
+func (c *pipelineConn) write(ctx context.Context, m []byte, qid uint16) (err error) {
 	isTCP := c.t.opts.IsTCP
 	if isTCP {
 		b, err := copyMsgWithLenHdr(m)
-		setQid(b, 2, qid)
 		if err != nil {
 			return err
 		}
-		_, err = c.c.Write(b)
+		setQid(b, 2, qid)
+		err = c.writeTCP(ctx, b)
 		pool.ReleaseBuf(b)
 		return err
 	}
@@ -167,6 +170,28 @@ func (c *pipelineConn) write(m []byte, qid uint16) (err error) {
 		return err
 	}
 	return nil
+}
+
+// writeTCP writes b to the connection. It returns no later than the deadline of ctx.
+// Concurrent writes are serialized, so each one has its own write deadline.
+func (c *pipelineConn) writeTCP(ctx context.Context, b []byte) error {
+	select {
+	case c.wm <- struct{}{}:
+	case <-ctx.Done():
+		return context.Cause(ctx)
+	case <-c.ctx.Done():
+		return context.Cause(c.ctx)
+	}
+	defer func() { <-c.wm }()
+
+	ddl, _ := ctx.Deadline() // zero value means no deadline
+	c.c.SetWriteDeadline(ddl)
+	_, err := c.c.Write(b)
+	if err != nil {
+		// The frame may be partially written. This connection is unusable.
+		c.closeWithErr(fmt.Errorf("write err, %w", err))
+	}
+	return err
 }
 
 func (c *pipelineConn) Close() error {
